@@ -663,6 +663,46 @@ func (r *Run) AllGuardTable(keep func(tableRow) bool, why string) int {
 // arrays. Such a fork does not change what is accepted or done.
 func loggingOnlyFork(g *Guard) bool {
 	b := g.Block
+	region := map[*ssa.BasicBlock]bool{}
+	logs := 0
+	for i := 0; i < 2; i++ {
+		for _, x := range g.Fn.Blocks {
+			if x == g.Fn.Recover || (len(x.Preds) == 0 && x != g.Fn.Blocks[0]) || !edgeDominates(b, b.Succs[i], x) {
+				continue
+			}
+			region[x] = true
+			for _, in := range x.Instrs {
+				if c, ok := in.(*ssa.Call); ok {
+					if _, isB := c.Call.Value.(*ssa.Builtin); !isB {
+						logs++
+					}
+				}
+			}
+		}
+	}
+	if len(region) == 0 || logs == 0 {
+		return false // a fork with nothing but value selection is not "only logging"
+	}
+	// the fork must not select values: no phi merges different values along edges from the region or from b
+	for _, x := range g.Fn.Blocks {
+		for _, in := range x.Instrs {
+			phi, ok := in.(*ssa.Phi)
+			if !ok {
+				break
+			}
+			var first ssa.Value
+			for k, pr := range x.Preds {
+				if !region[pr] && pr != b {
+					continue
+				}
+				if first == nil {
+					first = phi.Edges[k]
+				} else if phi.Edges[k] != first {
+					return false
+				}
+			}
+		}
+	}
 	for i := 0; i < 2; i++ {
 		start := b.Succs[i]
 		// region: blocks dominated by the edge (b → start)
